@@ -210,7 +210,8 @@ Definition cs_steps (op : cs_op) (m : cs_m) : list cs_step :=
       (* get-or-create of the recovery mailbox (exists already on a restart) + hash map rebuilt from store reads *)
       cs_broadcast ++ [SConn 9] ++ [SBegin] ++ [SRead] ++ map (fun id => SStmt (StDeleteMsg id)) ids ++ [SCommit]
       ++ map SDel ids ++ [SList; SRead]
-      ++ map SDel (map fst (filter (fun p => negb (cs_has_msg (fst (cs_purge_db (m_db m))) (fst p))) (m_store m)))
+      (* cleanupStaleStoreData lists the store AFTER the deletions above *)
+      ++ map SDel (map fst (filter (fun p => negb (cs_has_msg (fst (cs_purge_db (m_db m))) (fst p))) (cs_del_seq (m_store m) ids)))
   end.
 
 (* the operation's own clean-up after an error (only applyMessagesCreated has one: the files it wrote are deleted) *)
